@@ -364,9 +364,41 @@ func c18Run(raw json.RawMessage, c *mc.Ctx) {
 		return
 	}
 	if sp.Group == "invalid" {
-		bad := [][]string{{"c_MAXAMAX=0"}, {"c_MAXAMAX=101"}, {"c_MINTMP=50"}, {"c_WUMAXPF=21"}, {"c_VELOC=0"}, {"c_YIFAK=1.5"}, {"c_INITCONCNBIOM=-1"},
-			{fmt.Sprintf("c_TSUM_%d=10", S+1)}, {"c_TSUM_1=-5"}, {"c_DRYSWELL_1=1.5"}, {fmt.Sprintf("c_PRO_1_%d=0.5", K+1)}, {"c_DEAD_1_1=2"},
+		bad := [][]string{{fmt.Sprintf("c_TSUM_%d=10", S+1)}, {fmt.Sprintf("c_PRO_1_%d=0.5", K+1)},
 			{"c_MAXAMAX=20", "c_MINTMP=50"}, {"c_TSUM_1=500", "c_KC_2=0"}, {"c_WUMAXPF=5", fmt.Sprintf("c_BAS_%d=3", S+1)}}
+		// every parameter's valid range (open ends marked): the values just outside, clearly outside and far outside on
+		// both sides, and the end itself where it does not belong to the range
+		type rng struct {
+			name           string
+			lo, hi         float64
+			openLo, openHi bool
+		}
+		inf := math.Inf(1)
+		st := 1 + len(sp.File)%S
+		sfx := fmt.Sprintf("_%d", st)
+		for _, q := range []rng{{"MAXAMAX", 0, 100, true, false}, {"MINTMP", -30, 50, true, true}, {"WUMAXPF", 0, 20, true, false}, {"VELOC", 0, 1, true, false},
+			{"YIFAK", 0, 1, false, false}, {"INITCONCNBIOM", 0, 100, false, false}, {"INITCONCNROOT", 0, 100, false, false},
+			{"TSUM" + sfx, 0, 10000, false, false}, {"BAS" + sfx, -10, 40, false, false}, {"VSCHWELL" + sfx, 0, 100, false, false}, {"DAYL" + sfx, -24, 24, false, false},
+			{"DLBAS" + sfx, -24, 24, false, false}, {"DRYSWELL" + sfx, 0, 1, false, false}, {"LUKRIT" + sfx, 0, 1, false, false}, {"LAIFKT" + sfx, 0, 100, false, false},
+			{"WGMAX" + sfx, 0, 100, false, false}, {"KC" + sfx, 0, inf, true, false}, {"PRO" + sfx + "_1", 0, 1, false, false}, {"DEAD" + sfx + "_1", 0, 1, false, false}} {
+			span := q.hi - q.lo
+			if math.IsInf(span, 0) {
+				span = 1
+			}
+			vs := []float64{q.lo - 0.01, q.lo - span/2, q.lo - 150*span}
+			if q.openLo {
+				vs = append(vs, q.lo)
+			}
+			if !math.IsInf(q.hi, 0) {
+				vs = append(vs, q.hi+0.01, q.hi+span/2, q.hi+150*span)
+				if q.openHi {
+					vs = append(vs, q.hi)
+				}
+			}
+			for _, v := range vs {
+				bad = append(bad, []string{"c_" + q.name + "=" + c18Fmt(math.Round(v*100)/100)})
+			}
+		}
 		for _, a := range bad {
 			if strings.Contains(a[len(a)-1], fmt.Sprintf("_%d=", S+1)) && S+1 > 9 || strings.Contains(a[0], fmt.Sprintf("_1_%d=", K+1)) && K+1 > 5 {
 				continue // the argument parser itself rejects indexes above 9 / 5 (run error), not an override to reject
